@@ -519,7 +519,7 @@ func (t *Tr) run(verify bool) {
 	// assume preconditions
 	env := t.entryEnv(t.entrySt)
 	if t.ct != nil {
-		for _, r := range t.ct.Requires {
+		for _, r := range append(append([]*Clause{}, t.ct.Requires...), t.ct.Assumes...) {
 			tm, err := env.boolExpr(r.E)
 			if err != nil {
 				t.unsup("requires (%s:%d): %v", r.File, r.Line, err)
